@@ -451,6 +451,7 @@ def exec_task(task):
     kind = task["kind"]
     fac = system_factory(case)
     results = []
+    extra = []
     truncated = False
     graph = None
     if kind == "cover":
@@ -465,7 +466,12 @@ def exec_task(task):
             scheds = [scheds[i] for i in sorted(rng.sample(range(len(scheds)), task["sample"]))]
             graph["sampled"] = len(scheds)
         for sc in scheds:
-            results.append(run_schedule(fac, [int(x) for x in sc.split()]))
+            r = run_schedule(fac, [int(x) for x in sc.split()])
+            results.append(r)
+            if r.outcome in ("not-enabled", "open") and len(extra) < 200:
+                # the implementation left the model's path: finish the run anyway (lowest enabled thread
+                # first) so that the property's own predicates see a maximal schedule
+                extra.append(run_schedule(fac, r.schedule, extend=lambda en, last: en[0], max_steps=2000))
     elif kind == "dfs":
         for r in explore_dfs(fac, task["bound"], max_runs=task["max_runs"]):
             results.append(r)
@@ -492,7 +498,7 @@ def exec_task(task):
                                      % graph["deadlock_states"], "impl_obs": [], "outcome": "model"})
         out["n_disagreements"] += 1
     nfail = 0
-    for r in results:
+    for r in results + extra:
         if valid:
             f = divider_failure(case, r) if divider else property_failure(case, r)
             if f:
@@ -538,20 +544,30 @@ def _worker_init(counter):
         pass
 
 
-def run_tasks(tasks, nproc=None):
+def run_tasks(tasks, nproc=None, fail_fast=False):
+    """Run the tasks in worker processes.  Results come back in task order (None = not run).  With
+    fail_fast the remaining tasks are abandoned as soon as the first task *in submission order* reports a
+    concrete failing input (deterministic: the submission order is fixed)."""
     import multiprocessing as mp
     nproc = nproc or min(16, os.cpu_count() or 4)
     if len(tasks) <= 1 or nproc <= 1:
-        return [exec_task(t) for t in tasks]
+        out = []
+        for t in tasks:
+            out.append(exec_task(t))
+            if fail_fast and out[-1]["failures"]:
+                break
+        return out + [None] * (len(tasks) - len(out))
     ctxm = mp.get_context("fork")
     counter = ctxm.Value("i", 0)
     # biggest first for load balance; results are re-ordered to task order afterwards
     order = sorted(range(len(tasks)), key=lambda i: -tasks[i].get("weight", 1))
-    with ctxm.Pool(nproc, initializer=_worker_init, initargs=(counter,)) as pool:
-        res = pool.map(exec_task, [tasks[i] for i in order], chunksize=1)
     out = [None] * len(tasks)
-    for i, r in zip(order, res):
-        out[i] = r
+    with ctxm.Pool(nproc, initializer=_worker_init, initargs=(counter,)) as pool:
+        for i, r in zip(order, pool.imap(exec_task, [tasks[i] for i in order], chunksize=1)):
+            out[i] = r
+            if fail_fast and r["failures"]:
+                pool.terminate()
+                break
     return out
 
 
@@ -586,6 +602,8 @@ def build_tasks(ctx):
         if t.get("sample"):
             t["seed"] = rng.getrandbits(48)
             t["weight"] = 500
+        if kind == "cover" and case.get("type") != "divider" and S <= 2 and N <= 2 and case["killer"] < 0:
+            t["weight"] = 10 ** 7      # tiny graphs first: a basic defect is reported within seconds
         tasks.append(t)
 
     # (1) every transition of the model's reachable state graph, replayed on the implementation.
@@ -751,8 +769,8 @@ def search_failing_input(ctx, case, budget=4000):
         tasks.append({"kind": "dfs", "case": c, "bound": 2, "max_runs": budget, "compare": False})
         tasks.append({"kind": "random", "case": c, "n": budget // 4, "seed": ctx.rng.getrandbits(48),
                       "sticky": 0.5, "compare": False})
-    for r in run_tasks(tasks):
-        if r["failures"]:
+    for r in run_tasks(tasks, fail_fast=True):
+        if r is not None and r["failures"]:
             return r["case"], r["failures"][0]
     return None, None
 
@@ -774,8 +792,13 @@ def run(ctx):
     ctx.assumptions.append("CPython RLock/Condition behave as documented; timeouts are represented by deadlock")
     tasks = build_tasks(ctx)
     t0 = time.time()
-    results = run_tasks(tasks)
+    results = run_tasks(tasks, fail_fast=True)
     ctx.notes.append("exploration wall time %.1fs for %d tasks" % (time.time() - t0, len(tasks)))
+    skipped = sum(1 for r in results if r is None)
+    if skipped:
+        ctx.notes.append("%d tasks not run: stopped at the first concrete failing input" % skipped)
+    tasks = [t for t, r in zip(tasks, results) if r is not None]
+    results = [r for r in results if r is not None]
     slow = sorted(results, key=lambda r: -r["wall"])[:5]
     ctx.notes.append("slowest tasks: " + "; ".join("%s %s %d runs %.1fs" % (r["kind"], _tag(r["case"]), r["runs"], r["wall"])
                                                    for r in slow))
